@@ -697,3 +697,92 @@ _run_c13 = run
 def run(ctx, R):
     _run_c13(ctx, R)
     r136(ctx, R)
+
+
+def r137(ctx, R):
+    """member_of with aggregate uuids the service has never seen: an any-of
+    group ignores unknown uuids and is unsatisfiable (empty result) only
+    when none of its uuids is known."""
+    prog = ctx.prog
+    f = prog.func('placement.objects.research_context:'
+                  'provider_ids_matching_aggregates')
+    g = cfgmod.cfg_of(f)
+    mo = f.params[1] if len(f.params) > 1 else None
+    loops = [x for x in own_nodes(f.node) if isinstance(x, ast.For)]
+
+    def walks_groups(lp):
+        it = lp.iter
+        if isinstance(it, ast.Call) and src(it.func) == 'enumerate' and \
+                it.args:
+            it = it.args[0]
+        return src(it) == mo
+    # the join-building loop: one iteration per any-of group, containing the
+    # per-group id list
+    ok = False
+    why = 'no per-group id list found'
+    empties = []
+    for r in own_nodes(f.node):
+        if isinstance(r, ast.Return) and isinstance(
+                r.value, ast.Call) and src(r.value.func) == 'set' and \
+                not r.value.args:
+            empties.append(r)
+        if isinstance(r, ast.Return) and isinstance(
+                r.value, (ast.Set, ast.List, ast.Tuple)) and \
+                not r.value.elts:
+            empties.append(r)
+    for lp in [x for x in loops if walks_groups(x)]:
+        grp = lp.target.elts[-1] if isinstance(
+            lp.target, ast.Tuple) else lp.target
+        for a in own_nodes_of(lp):
+            if not (isinstance(a, ast.Assign) and isinstance(
+                    a.value, ast.ListComp) and len(
+                        a.value.generators) == 1):
+                continue
+            gen = a.value.generators[0]
+            if src(gen.iter) != src(grp):
+                continue
+            elt = a.value.elt
+            # [map[m] for m in members if m in map]
+            if not (isinstance(elt, ast.Subscript) and src(
+                    elt.slice) == src(gen.target)):
+                continue
+            amap = src(elt.value)
+            filt = [t for t in gen.ifs if isinstance(t, ast.Compare)
+                    and isinstance(t.ops[0], ast.In)
+                    and src(t.left) == src(gen.target)
+                    and src(t.comparators[0]) == amap]
+            ids = a.targets[0].id if isinstance(
+                a.targets[0], ast.Name) else None
+            if len(filt) != 1 or len(gen.ifs) != 1 or ids is None:
+                why = 'the per-group id list does not skip unknown uuids'
+                continue
+            # every empty return is "if not <ids>" inside this loop
+            good = True     # IN () matches nothing: the short cut is optional
+            for r in empties:
+                gi = C.guarding_ifs(r, f.node)
+                if not (gi and gi[0][1] == 'body' and isinstance(
+                        gi[0][0].test, ast.UnaryOp) and isinstance(
+                            gi[0][0].test.op, ast.Not) and src(
+                                gi[0][0].test.operand) == ids and
+                        len(gi) == 1 and C.stmt_of(gi[0][0]) is not None
+                        and any(gi[0][0] is x for x in own_nodes_of(lp))):
+                    good = False
+                    why = 'line %d returns the empty result under %s' % (
+                        r.lineno, [src(i.test) for i, _b in gi])
+            if good:
+                ok = True
+                why = 'ids = [map[m] for m in group if m in map]; ' \
+                    'empty result only when a group has no known uuid'
+    R.ob('R13.7', 'provider_ids_matching_aggregates:unknown-aggregates', ok,
+         'an any-of group of aggregates ignores uuids placement has never '
+         'recorded; the result is forced empty only when a whole group is '
+         'unknown', why, func=f)
+    R.count('R13.7', 1, 1)
+
+
+_run_c13b = run
+
+
+def run(ctx, R):
+    _run_c13b(ctx, R)
+    r137(ctx, R)
